@@ -1,1 +1,2 @@
+pub mod pq;
 pub mod sinks;
